@@ -909,7 +909,7 @@ func (m *machine) convScalar(v Value, k wgen.Kind) Value {
 			if !ok {
 				m.ev.F2IRange++
 			} else if f < 0 {
-				m.ev.F2UNegFrac++
+				m.ev.F2UNeg++
 			}
 			return Value{T: t, B: r}
 		}
